@@ -269,12 +269,15 @@ fn run_case(rep: &mut Report, journal: &mut Journal, case_seed: u64, nsteps: usi
                 // add a file (roots re-set); its module name may or may not be imported already
                 let pi = r.below(ws.pkgs.len());
                 let name = *r.pick(&["m0", "m1", "extra", "dir/m2", "dir/sub/m3", "zz"]);
-                let path = format!("{}/src/{}.gleam", ws.pkgs[pi].root, name);
+                // one new file in three is a test module: `test/m0.gleam` next to `src/m0.gleam` is an ordinary
+                // layout (a test helper named like the module it tests) and gives two files one module name
+                let dir = if r.chance(1, 3) { "test" } else { "src" };
+                let path = format!("{}/{dir}/{}.gleam", ws.pkgs[pi].root, name);
                 if ws.files.iter().any(|f| f.path == path) {
                     kind = "roots-replaced";
                     change.set_roots(ws.roots());
                 } else {
-                    kind = "add-file";
+                    kind = if dir == "test" { "add-test-module" } else { "add-file" };
                     let id = ws.files.iter().map(|f| f.id).max().unwrap() + 1;
                     let text = format!("pub fn {}(x) {{ x }}\npub type Extra {{ Extra(name: Int) }}\n", r.pick(&["a", "f", "g"]));
                     ws.files.push(FileEntry { id, pkg: pi, path, text: text.clone() });
